@@ -1,0 +1,65 @@
+// Copyright (c) 2021 Uber Technologies, Inc.
+//
+// Permission is hereby granted, free of charge, to any person obtaining a copy
+// of this software and associated documentation files (the "Software"), to deal
+// in the Software without restriction, including without limitation the rights
+// to use, copy, modify, merge, publish, distribute, sublicense, and/or sell
+// copies of the Software, and to permit persons to whom the Software is
+// furnished to do so, subject to the following conditions:
+//
+// The above copyright notice and this permission notice shall be included in
+// all copies or substantial portions of the Software.
+//
+// THE SOFTWARE IS PROVIDED "AS IS", WITHOUT WARRANTY OF ANY KIND, EXPRESS OR
+// IMPLIED, INCLUDING BUT NOT LIMITED TO THE WARRANTIES OF MERCHANTABILITY,
+// FITNESS FOR A PARTICULAR PURPOSE AND NONINFRINGEMENT. IN NO EVENT SHALL THE
+// AUTHORS OR COPYRIGHT HOLDERS BE LIABLE FOR ANY CLAIM, DAMAGES OR OTHER
+// LIABILITY, WHETHER IN AN ACTION OF CONTRACT, TORT OR OTHERWISE, ARISING FROM,
+// OUT OF OR IN CONNECTION WITH THE SOFTWARE OR THE USE OR OTHER DEALINGS IN
+// THE SOFTWARE.
+
+package goast
+
+import "go/ast"
+
+// DropEmptyComments removes comment groups that have no comments left from
+// the file's comment list and from the nodes they are attached to.
+//
+// ast.CommentGroup's Pos and End panic on a group without comments, and
+// walking or editing the file reaches them.
+func DropEmptyComments(f *ast.File) {
+	comments := f.Comments[:0]
+	for _, cg := range f.Comments {
+		if len(cg.List) > 0 {
+			comments = append(comments, cg)
+		}
+	}
+	f.Comments = comments
+
+	drop := func(cgs ...**ast.CommentGroup) {
+		for _, cg := range cgs {
+			if *cg != nil && len((*cg).List) == 0 {
+				*cg = nil
+			}
+		}
+	}
+	ast.Inspect(f, func(n ast.Node) bool {
+		switch n := n.(type) {
+		case *ast.File:
+			drop(&n.Doc)
+		case *ast.GenDecl:
+			drop(&n.Doc)
+		case *ast.FuncDecl:
+			drop(&n.Doc)
+		case *ast.Field:
+			drop(&n.Doc, &n.Comment)
+		case *ast.ImportSpec:
+			drop(&n.Doc, &n.Comment)
+		case *ast.ValueSpec:
+			drop(&n.Doc, &n.Comment)
+		case *ast.TypeSpec:
+			drop(&n.Doc, &n.Comment)
+		}
+		return true
+	})
+}
